@@ -18,4 +18,14 @@ def later (fault outcome : String) : Bool :=
 def deadline (mode : String) (returned prompt ctxErr nothingSent : Bool) : Bool :=
   returned && prompt && ctxErr && (mode != "done" || nothingSent)
 
+/-- C06: a cached read that started after an invalidation for version `floor` had been processed may
+    return as a hit only a value of at least that version, and only its own key's value -/
+def cacheRead (floor ver : Int) (hit own : Bool) : Bool := own && (!hit || floor ≤ ver)
+
+/-- C09: concurrent cold reads of one command share one request; on success every waiter gets the reply
+    and the value is cached; on failure nobody gets a value and nothing is cached -/
+def flight (failed : Bool) (gets nok nerr : Nat) (laterHit laterOk : Bool) : Bool :=
+  gets ≤ 1 + (if failed then 1 else 0) && laterOk &&
+  (if failed then nok = 0 && !laterHit else nerr = 0 && laterHit)
+
 end Rv.Spec.PipeJudge
